@@ -212,7 +212,47 @@ pub fn check_case2(c: &RCase, q: &QRCode, other: Option<&QRCode>) -> (Vec<(Strin
         // pixmap of *this* symbol must not carry anything over
         if let Some(o) = other {
             let r = subject::guarded(|| {
-                let b = mk();
+                // the used builder reaches the final options through a history: other colours, another margin and
+                // other fit bounds first (a bound that is set, overridden by the other one, and set again), a render
+                // of another symbol in between, then the final values
+                let mut b = ImageBuilder::default();
+                b.shape(SHAPES[c.shape]).margin(c.margin + 1).module_color([9, 99, 199, 255]).background_color([250, 250, 1, 255]);
+                match c.fit {
+                    Fit::Original => {}
+                    Fit::Width(w) => {
+                        b.fit_width(w / 2 + 1);
+                    }
+                    Fit::Height(h) => {
+                        b.fit_height(h / 2 + 1);
+                    }
+                    Fit::Both(w, h) => {
+                        b.fit_width(w);
+                        b.fit_height(w.min(h) / 2 + 1);
+                    }
+                }
+                let _ = b.to_bytes(o);
+                b.margin(c.margin);
+                match c.fit {
+                    Fit::Original => {}
+                    Fit::Width(w) => {
+                        b.fit_width(w);
+                    }
+                    Fit::Height(h) => {
+                        b.fit_height(h);
+                    }
+                    Fit::Both(_, h) => {
+                        b.fit_height(h);
+                    }
+                }
+                // this very symbol with the earlier colours, then only the colours change
+                let _ = b.to_bytes(q);
+                b.module_color(fg).background_color(bg);
+                let after_colour_change = b.to_bytes(q);
+                if let (Ok(x), Ok(y)) = (&after_colour_change, &mk().to_bytes(q)) {
+                    if x != y {
+                        return (Err(fast_qr::convert::image::ImageError::ImageError("colour".into())), vec![], mk().to_bytes(q));
+                    }
+                }
                 let _ = b.to_bytes(o);
                 let bytes = b.to_bytes(q);
                 let _ = b.to_pixmap(o);
@@ -227,12 +267,13 @@ pub fn check_case2(c: &RCase, q: &QRCode, other: Option<&QRCode>) -> (Vec<(Strin
             match r {
                 Ok((Ok(used), again, Ok(fresh))) => {
                     if used != fresh {
-                        out.push(("png-differs-on-reused-builder".into(), "to_bytes() of a builder that rendered another symbol of the same size before differs from a fresh builder's output for the same symbol".to_string()));
+                        out.push(("png-differs-on-reused-builder".into(), "to_bytes() of a builder that reached the same final options through a history (other colours, margin and fit bounds first, renders of another symbol in between) differs from a fresh builder's output for the same symbol".to_string()));
                     }
                     if again != rgba {
-                        out.push(("pixmap-differs-on-reused-builder".into(), "to_pixmap() of a builder that rendered another symbol of the same size before differs from a fresh builder's pixmap".to_string()));
+                        out.push(("pixmap-differs-on-reused-builder".into(), "to_pixmap() of a builder that reached the same final options through a history differs from a fresh builder's pixmap".to_string()));
                     }
                 }
+                Ok((Err(fast_qr::convert::image::ImageError::ImageError(m)), _, _)) if m == "colour" => out.push(("png-keeps-earlier-colours".into(), "after rendering this symbol, changing only the colours and rendering it again, to_bytes() differs from a fresh builder with the final colours".to_string())),
                 Ok(_) => out.push(("png-error".into(), "to_bytes returned an error on a reused builder".to_string())),
                 Err(m) => out.push(("panic".into(), format!("render on a reused builder panicked: {}", m))),
             }
